@@ -1291,6 +1291,110 @@ fn acc_cases(tier: Tier) -> Vec<AccCase> {
 
 // ---------------------------------------------------------------------------------------------
 
+// ---- foreign peers: metadata next to a degraded status, and through the grpc-web client ------
+
+#[derive(Clone, Debug)]
+struct ForeignCase {
+    /// 0: tonic client reads trailers with an undecodable grpc-message; 1: undecodable
+    /// grpc-status-details-bin; 2: grpc-web client layer, trailers frame with these entries
+    route: u8,
+    md: Vec<(String, Vec<u8>)>,
+}
+
+struct CannedResp {
+    headers: HeaderMap,
+    body: Vec<u8>,
+    trailers: Option<HeaderMap>,
+    ch: Chooser,
+}
+
+impl<B: Send + 'static> tower_service::Service<http::Request<B>> for CannedResp {
+    type Response = http::Response<ScriptBody>;
+    type Error = std::convert::Infallible;
+    type Future = std::pin::Pin<Box<dyn std::future::Future<Output = Result<Self::Response, Self::Error>> + Send>>;
+    fn poll_ready(&mut self, _: &mut std::task::Context<'_>) -> std::task::Poll<Result<(), Self::Error>> {
+        std::task::Poll::Ready(Ok(()))
+    }
+    fn call(&mut self, _req: http::Request<B>) -> Self::Future {
+        let mut r = http::Response::new(ScriptBody::new(self.body.clone(), self.trailers.clone(), Chunking::Fixed(vec![]), &self.ch));
+        *r.headers_mut() = self.headers.clone();
+        Box::pin(async move { Ok(r) })
+    }
+}
+
+fn foreign_body(c: &ForeignCase, ch: &Chooser) -> Outcome {
+    let mut headers = HeaderMap::new();
+    headers.insert("content-type", HeaderValue::from_static("application/grpc"));
+    let mut trailers = HeaderMap::new();
+    trailers.insert("grpc-status", HeaderValue::from_static("10"));
+    match c.route {
+        0 => {
+            trailers.insert("grpc-message", HeaderValue::from_static("caf%E9%FF"));
+        }
+        1 => {
+            trailers.insert("grpc-status-details-bin", HeaderValue::from_static("!!!not-base64"));
+        }
+        _ => {}
+    }
+    for (k, v) in &c.md {
+        trailers.append(HeaderName::from_bytes(k.as_bytes()).unwrap(), HeaderValue::from_bytes(v).unwrap());
+    }
+    let view = if c.route == 2 {
+        let block: Vec<(String, Vec<u8>)> = trailers.iter().map(|(k, v)| (k.as_str().to_string(), v.as_bytes().to_vec())).collect();
+        let body = wire::encode_frame(0x80, &wire::encode_trailer_block(&block, false));
+        headers.insert("content-type", HeaderValue::from_static("application/grpc-web+proto"));
+        let svc = tonic_web::GrpcWebClientService::new(CannedResp { headers, body, trailers: None, ch: ch.clone() });
+        let mut client = EchoClient::new(svc);
+        spin_block_on(client_call(&mut client, Shape::ServerStream, vec![vec![1]], &vec![], false, ch, |_| {}), 100_000)
+    } else {
+        let svc = CannedResp { headers, body: vec![], trailers: Some(trailers), ch: ch.clone() };
+        let mut client = EchoClient::new(svc);
+        spin_block_on(client_call(&mut client, Shape::ServerStream, vec![vec![1]], &vec![], false, ch, |_| {}), 100_000)
+    };
+    let Ok(view) = view else {
+        let mut o = Outcome::new("STALLED");
+        o.violate("foreign-stall", "call did not complete");
+        return o;
+    };
+    let mut o = Outcome::new(super::l1::fmt_view(&view));
+    o.nontrivial = !c.md.is_empty();
+    let Some(st) = &view.error else {
+        o.violate("foreign-status-lost", "the peer's error status did not reach the caller");
+        return o;
+    };
+    // every metadata entry the peer attached to its error status is visible to the caller
+    let got = st.metadata().clone().into_headers();
+    let mut keys: Vec<&String> = c.md.iter().map(|(k, _)| k).collect();
+    keys.sort();
+    keys.dedup();
+    for k in keys {
+        let want: Vec<Vec<u8>> = c.md.iter().filter(|(kk, _)| kk == k).map(|(_, v)| v.clone()).collect();
+        let have: Vec<Vec<u8>> = got.get_all(k.as_str()).iter().map(|v| v.as_bytes().to_vec()).collect();
+        if have != want {
+            let route = ["undecodable-message", "undecodable-details", "grpc-web-client"][c.route as usize];
+            o.violate(format!("foreign-status-metadata-lost:{route}"), format!("the peer's error status carried {k} = {:?} but the caller's Status::metadata has {:?} (status {})", want.iter().map(|v| String::from_utf8_lossy(v).to_string()).collect::<Vec<_>>(), have.iter().map(|v| String::from_utf8_lossy(v).to_string()).collect::<Vec<_>>(), crate::env::fmt_status(st)));
+        }
+    }
+    o
+}
+
+fn foreign_cases() -> Vec<ForeignCase> {
+    let mds: Vec<Vec<(String, Vec<u8>)>> = vec![
+        vec![],
+        vec![("x-reason".into(), b"quota".to_vec())],
+        vec![("x-r".into(), b"1".to_vec()), ("x-r".into(), b"2".to_vec())],
+        vec![("x-b-bin".into(), b"AP8+".to_vec()), ("x-c-bin".into(), b"AP8=".to_vec())],
+        vec![("x-opaque".into(), vec![b'c', b'a', b'f', 0xe9, b' ', 0xfa, 0xfb]), ("x-a".into(), b"v: w".to_vec())],
+    ];
+    let mut out = vec![];
+    for route in 0..3u8 {
+        for md in &mds {
+            out.push(ForeignCase { route, md: md.clone() });
+        }
+    }
+    out
+}
+
 pub fn property(tier: Tier) -> Property {
     let tables = Arc::new(Tables { bins: bin_strings(tier.q(4, 6)) });
     let cfg = || Config { max_bound: 0, ..Default::default() };
@@ -1338,6 +1442,15 @@ pub fn property(tier: Tier) -> Property {
     )
     .mins(200, 10, 20);
 
+    let foreign = Section::new(
+        "foreign-peer-status",
+        Config::default(),
+        "cases: a non-tonic peer ends a server-streaming call with an error status whose trailers carry custom metadata (single, repeated, binary padded/unpadded, opaque non-UTF-8 bytes, values with ': ') next to (0) an undecodable grpc-message, (1) an undecodable grpc-status-details-bin, or (2) delivered as a grpc-web trailers frame through GrpcWebClientService; oracle: every such entry is present, per key in order, in the caller's Status::metadata. Non-trivial = metadata attached.",
+        foreign_cases(),
+        |c: &ForeignCase| format!("route={} md={:?}", c.route, c.md.iter().map(|(k, v)| format!("{k}={}", String::from_utf8_lossy(v))).collect::<Vec<_>>()),
+        foreign_body,
+    )
+    .mins(10, 3, 8);
     let accessors = Section::new(
         "accessors",
         cfg(),
@@ -1359,7 +1472,7 @@ pub fn property(tier: Tier) -> Property {
             "forgery is judged by value: the values attached under reserved names are chosen so that tonic never legitimately sends them (status code 9, message 'm 9%')".into(),
             "wire-l2 judges the peer's view only (the bytes inside the h2 connection are not captured)".into(),
         ],
-        sections: vec![wire_l1, wire_l2, padded, merge, accessors],
+        sections: vec![wire_l1, wire_l2, padded, merge, accessors, foreign],
         extra: Default::default(),
     }
 }
